@@ -1376,6 +1376,40 @@ pub fn suite_ticker(t: &mut Trace) -> String {
     format!(",\"model\":false,\"ticker_measurements\":[{}]", rows.join(","))
 }
 
+/// A spawner that runs every background task of an AsyncCache on ONE executor thread (a
+/// `LocalPool`): the cache processor and the policy worker then share a thread, so any place where
+/// one of them blocks the thread instead of awaiting (a blocking wait, a lock held across an await)
+/// while it needs the other to move shows up as a hang.  C19: "on any executor supplied as spawner".
+/// (The builder wants a `Copy` spawner, hence a plain fn and a global sender.)
+static ONE_THREAD_TX: Mutex<Option<futures::channel::mpsc::UnboundedSender<futures::future::BoxFuture<'static, ()>>>> = Mutex::new(None);
+
+pub fn start_one_thread_executor() {
+    use futures::channel::mpsc::unbounded;
+    use futures::executor::LocalPool;
+    use futures::task::LocalSpawnExt;
+    use futures::StreamExt;
+    let (tx, mut rx) = unbounded::<futures::future::BoxFuture<'static, ()>>();
+    std::thread::spawn(move || {
+        let mut pool = LocalPool::new();
+        let sp = pool.spawner();
+        let sp2 = sp.clone();
+        sp.spawn_local(async move {
+            while let Some(f) = rx.next().await {
+                let _ = sp2.spawn_local(f);
+            }
+        })
+        .unwrap();
+        pool.run();
+    });
+    *ONE_THREAD_TX.lock().unwrap() = Some(tx);
+}
+
+pub fn one_thread_spawner(f: futures::future::BoxFuture<'static, ()>) {
+    if let Some(tx) = ONE_THREAD_TX.lock().unwrap().as_ref() {
+        let _ = tx.unbounded_send(f);
+    }
+}
+
 /// The all-default cache (`Cache::new` / `AsyncCache::new`: DefaultKeyBuilder, DefaultCoster,
 /// DefaultUpdateValidator, DefaultCacheCallback, RandomState), which the other suites never build:
 /// constructor arguments arrive, the default validator accepts, the default coster adds nothing,
@@ -1494,6 +1528,51 @@ pub fn suite_defaults(t: &mut Trace) -> String {
             t.mark_nontrivial();
         }
         stretto::verif::install(None);
+    }
+    // ---- C19: every background task of an AsyncCache on ONE executor thread
+    {
+        id += 1;
+        t.case(id, "defaults");
+        start_one_thread_executor();
+        let done = Arc::new(Mutex::new(Vec::<String>::new()));
+        let d2 = done.clone();
+        let h = std::thread::spawn(move || {
+            let log = |s: &str| d2.lock().unwrap().push(s.to_string());
+            let c: AsyncCache<u64, u64> = match AsyncCache::builder(100, 20).set_ignore_internal_cost(true).set_buffer_items(2).set_metrics(true).finalize(one_thread_spawner) {
+                Ok(c) => c,
+                Err(_) => { log("BAD builder"); return; }
+            };
+            log("built");
+            let mut ok = true;
+            for k in 0..30u64 {
+                ok &= block_on(c.insert(k, k + 100, 1));
+                let _ = block_on(c.get(&k)).map(|v| v.release());
+                let _ = block_on(c.get(&k)).map(|v| v.release());
+            }
+            log(if ok { "inserted" } else { "BAD an insert was refused" });
+            log(if block_on(c.wait()).is_ok() { "waited" } else { "BAD wait() failed" });
+            let n = (0..30u64).filter(|k| block_on(c.get(k)).map(|v| { let x = *v.value(); v.release(); x }) == Some(k + 100)).count();
+            log(&format!("{} {} of 30 keys retrievable, len {}", if n == c.len() && n >= 15 { "found" } else { "BAD" }, n, c.len()));
+            block_on(c.remove(&1));
+            log(if block_on(c.wait()).is_ok() && block_on(c.get(&1)).is_none() { "removed" } else { "BAD remove" });
+            log(if block_on(c.clear()).is_ok() && c.len() == 0 { "cleared" } else { "BAD clear" });
+            log(if block_on(c.insert(7, 7, 1)) && block_on(c.wait()).is_ok() { "reused" } else { "BAD insert after clear" });
+            log(if block_on(c.close()).is_ok() && block_on(c.close()).is_ok() { "closed" } else { "BAD close" });
+            log(if !block_on(c.insert(8, 8, 1)) && block_on(c.wait()).is_ok() && block_on(c.clear()).is_ok() { "inert" } else { "BAD not inert after close" });
+            log("end");
+        });
+        let t0 = Instant::now();
+        while !h.is_finished() && t0.elapsed() < Duration::from_secs(20) {
+            std::thread::sleep(Duration::from_millis(5));
+        }
+        let steps = done.lock().unwrap().clone();
+        let last = steps.last().cloned().unwrap_or_default();
+        check!("C19", h.is_finished() && last == "end", "AsyncCache with every background task on one executor thread: the client did not get past '{}' within 20 s", last);
+        for s in steps.iter().filter(|s| s.starts_with("BAD")) {
+            check!("C19", false, "AsyncCache with every background task on one executor thread: {}", s);
+        }
+        t.step("defaults one-thread executor");
+        t.mark_nontrivial();
     }
     for (prop, msg) in &fails {
         println!("MONITOR property={} case=0 msg={}", prop, msg.replace(' ', "_"));
